@@ -106,7 +106,7 @@ func checkC05(c *km.Ctx) {
 		}
 		for _, cs := range c.G.Callers[f] {
 			caller := cs.Caller
-			if caller.Name() == "setNewAuthCookie" {
+			if km.NameOf(caller) == "setNewAuthCookie" {
 				// pass-through of its own parameters
 				ci := cs.Instr.(ssa.CallInstruction)
 				a := km.CallArgs(ci.Common())
@@ -120,7 +120,7 @@ func checkC05(c *km.Ctx) {
 			if strings.HasSuffix(name, "genNewSerializedAuthJWT") {
 				lvlIdx = 2
 			}
-			want, known := sessionCreators[caller.Name()]
+			want, known := sessionCreators[km.NameOf(caller)]
 			lv, isConst := km.ConstInt(a[lvlIdx])
 			got := km.ValStr(a[lvlIdx])
 			if isConst {
